@@ -311,6 +311,17 @@ func recipeReset(c *ctx) {
 		if i%3 == 2 {
 			prior = c.p.b.GenGo(c.rt, r.Fork(1), MRand, 0)
 		}
+		if i%4 == 1 {
+			// every branch attribute of every oneof group null (or unknown), against a target that holds branches
+			for _, f := range c.info.Fields {
+				if f.Oneof == "" {
+					continue
+				}
+				if a, ok := t.Attr(f.Attr); ok && a != nil && a.K != "nilv" {
+					a.Null, a.Unknown = i%8 == 1, i%8 != 1
+				}
+			}
+		}
 		id1, r1 := c.From("reset-full", t, prior)
 		id2, r2 := c.From("reset-zero", t, c.zero())
 		if r1.Panic != "" || r2.Panic != "" {
@@ -1303,8 +1314,8 @@ func recipeProbe(c *ctx) {
 			}
 		}
 		probe := c.withField(base, f, val)
-		if EqualGV(probe, base) {
-			continue // the field's type has a single value (message without fields held by value)
+		if EqualGV(probe, base) || EqualGV(Described(c.info, c.p.b.NF(probe, c.rt)), Described(c.info, c.p.b.NF(base, c.rt))) {
+			continue // the field's type has a single value as far as the schema describes it (message without fields held by value)
 		}
 		_, ta := c.To("probe-base", base, EmptyOf(c.objTy))
 		id, tb := c.To("probe-to", probe, EmptyOf(c.objTy))
